@@ -35,6 +35,8 @@ fn fail_constructors() {
 fn fail_overflow() {
     set_budget(1);
     let Ok(bump) = Bump::<VA, S<1, true>>::try_new() else { return };
+    // never run Drop for Bump on early-return paths (it walks the chunk list and calls the base allocator: pure cost)
+    let mut bump = core::mem::ManuallyDrop::new(bump);
     // budget stays 1: even with memory available a wrapped size must not be served
     let n: usize = kani::any();
     let pos0 = addr(bump.stats().current_chunk().unwrap().bump_position());
@@ -51,18 +53,17 @@ fn fail_overflow() {
         }
         2 => {
             kani::assume(n > (isize::MAX as usize) / 4);
-            assert!(BumpVec::<u32, _>::try_with_capacity_in(n, &bump).is_err(), "C07: overflowing BumpVec capacity succeeded");
+            assert!(BumpVec::<u32, _>::try_with_capacity_in(n, &*bump).is_err(), "C07: overflowing BumpVec capacity succeeded");
         }
         _ => {
             kani::assume(n > (isize::MAX as usize) / 2);
-            let mut v: BumpVec<u16, _> = BumpVec::new_in(&bump);
+            let mut v: BumpVec<u16, _> = BumpVec::new_in(&*bump);
             assert!(v.try_reserve(n).is_err(), "C07: overflowing BumpVec::try_reserve succeeded");
             assert!(v.len() == 0, "C07: failed reserve changed the length");
         }
     }
     assert!(grants() == 1, "C07: an overflowing request reached the base allocator successfully");
     assert!(addr(bump.stats().current_chunk().unwrap().bump_position()) == pos0, "C07: an overflowing request moved the bump position");
-    core::mem::forget(bump);
     kani::cover!(true, "END: harness ran to completion");
 }
 
@@ -74,6 +75,8 @@ where
 {
     set_budget(1);
     let Ok(bump) = Bump::<VA, St>::try_new() else { return };
+    // never run Drop for Bump on early-return paths (it walks the chunk list and calls the base allocator: pure cost)
+    let mut bump = core::mem::ManuallyDrop::new(bump);
     set_budget(0);
     let w1 = Win::of(bump.stats().current_chunk().unwrap());
     let la = any_layout(6, 2);
@@ -111,7 +114,6 @@ where
     if let Ok(p) = r {
         assert!(disjoint(addr(p.cast()), small.size(), addr(a), la.size()), "C07/C01: block after a failure overlaps an earlier block");
     }
-    core::mem::forget(bump);
     kani::cover!(true, "END: harness ran to completion");
 }
 
@@ -135,7 +137,7 @@ fn fail_switch_down4() {
 #[kani::stub(std::alloc::handle_alloc_error, crate::stubs::hae_stub)]
 fn fail_unallocated() {
     set_budget(0);
-    let bump: Bump<VA, S<1, true, false>> = Bump::unallocated();
+    let bump = core::mem::ManuallyDrop::new(Bump::<VA, S<1, true, false>>::unallocated());
     let l = any_layout(8, 3);
     kani::assume(l.size() > 0);
     let which: u8 = kani::any();
@@ -151,7 +153,6 @@ fn fail_unallocated() {
     let r = bump.allocate(l);
     kani::cover!(r.is_ok(), "recovers when memory is available again");
     set_budget(0);
-    core::mem::forget(bump);
     kani::cover!(true, "END: harness ran to completion");
 }
 
@@ -159,8 +160,10 @@ fn fail_unallocated() {
 fn fail_vec_body<const UP: bool>() {
     set_budget(1);
     let Ok(bump) = Bump::<VA, S<1, UP>>::try_new() else { return };
+    // never run Drop for Bump on early-return paths (it walks the chunk list and calls the base allocator: pure cost)
+    let mut bump = core::mem::ManuallyDrop::new(bump);
     set_budget(0);
-    let Ok(mut v) = BumpVec::<u8, _>::try_with_capacity_in(3, &bump) else { return };
+    let Ok(mut v) = BumpVec::<u8, _>::try_with_capacity_in(3, &*bump) else { return };
     let x: [u8; 3] = kani::any();
     let n: usize = kani::any();
     kani::assume(n <= 3);
@@ -201,7 +204,6 @@ fn fail_vec_body<const UP: bool>() {
     }
     kani::cover!(n == 3 && which == 1, "extend of a three-element vector refused");
     core::mem::forget(v);
-    core::mem::forget(bump);
     kani::cover!(true, "END: harness ran to completion");
 }
 
@@ -226,6 +228,8 @@ fn fail_vec_down() {
 fn panic_alloc_refused() {
     set_budget(1);
     let Ok(bump) = Bump::<VA, S<1, true>>::try_new() else { return };
+    // never run Drop for Bump on early-return paths (it walks the chunk list and calls the base allocator: pure cost)
+    let mut bump = core::mem::ManuallyDrop::new(bump);
     set_budget(0);
     kani::cover!(true, "REACH: arena exists");
     let which: u8 = kani::any();
@@ -241,7 +245,6 @@ fn panic_alloc_refused() {
         }
     }
     kani::cover!(true, "UNSAT: a panicking allocation method returned normally although memory was refused");
-    core::mem::forget(bump);
 }
 
 /// capacity overflow in a panicking method is a panic, never a normal return
@@ -251,11 +254,12 @@ fn panic_alloc_refused() {
 fn panic_capacity_overflow() {
     set_budget(1);
     let Ok(bump) = Bump::<VA, S<1, true>>::try_new() else { return };
+    // never run Drop for Bump on early-return paths (it walks the chunk list and calls the base allocator: pure cost)
+    let mut bump = core::mem::ManuallyDrop::new(bump);
     kani::cover!(true, "REACH: arena exists");
     let n: usize = kani::any();
     kani::assume(n > (isize::MAX as usize) / 8);
     let b = bump.alloc_uninit_slice::<u64>(n);
     kani::cover!(true, "UNSAT: an overflowing panicking allocation returned normally");
     core::mem::forget(b);
-    core::mem::forget(bump);
 }
